@@ -24,6 +24,35 @@ CHECKS = {
              'the id-reuse scenario is backed by a measured control (allocator recycles ids).',
         note='Trusted: vf.gen.to_direct reference evaluation, vf.canon isomorphism.',
         design='§3 C02'),
+    'C04': dict(
+        category='exploration',
+        technique='model-driven parallel walk of every value the built partial hands to a '
+                  'recording target (structure, identity across calls, per-uid invocation counts)',
+        text='Held on generated Partial/ArgFactory/Config nestings and call sequences with '
+             'overrides; identity relations are observed on real objects kept alive by the monitor.',
+        note='Trusted: functools.partial over ArgModel.call_args() as binding reference; the '
+             'abstract DAG classification build-time / per-call.',
+        design='§3 C04'),
+    'C05': dict(
+        category='fault_enumeration',
+        technique='fault injection: every DAG node as failing node x exception shapes; '
+                  'sys.monitoring CALL-line failpoints (one run per executed call-line event); '
+                  'nested-build and RecursionError sweeps; frame condition + follow-up build',
+        text='Every node of each generated DAG and every executed call line of the build '
+             'machinery was a crash point once; the residue clauses (nothing invoked later, '
+             'configuration unmodified, next build works) are judged on every run.',
+        note='Trusted: own path parser/follower for the documented path grammar; failpoints '
+             'only at lines containing a real CALL (never on with/try/assignment lines).',
+        design='§3 C05, §5'),
+    'C06': dict(
+        category='exploration',
+        technique='metamorphic monitor: equality-preserving / equality-breaking rewrites of '
+                  'abstract DAGs, independent canonical form as ground truth, build congruence',
+        text='== and != observed on generated pairs/triples in both orders; answers compared '
+             'with an independent isomorphism-with-defaults canonical form; equal pairs are built '
+             'and the built graphs compared.',
+        note="Trusted: vf.canon 'cfg-defaults'; leaves without cross-type equality.",
+        design='§3 C06'),
     'C03': dict(
         category='exploration',
         technique='lock-step reference-model monitor (ArgModel) over generated edit histories '
